@@ -5,7 +5,7 @@
 //! had pulled from the iterator when it made the call).
 //!
 //! Families
-//! * `str` — one input string per case: `<na> <stop cp|-1> A <arc advice…> S <code points…>`.
+//! * `str` — one input string per case: `<na> <stop cp|-1> S <code points…>`.
 //!   Streams (see the TAG): exhaustive strings of length ≤ 4 over the 16-symbol token alphabet,
 //!   grammar-generated strings, mutated strings, strings starting with a drawing command, the
 //!   `{:?}` text of random stored paths (round trip).
@@ -14,9 +14,8 @@
 //!
 //! IMPL = result kind (+ line, column, payload), final `Source::unwrap()` line/column, number of
 //! characters consumed, and the recorded builder calls (`B L Q C E0 E1` `@consumed`, coordinates and
-//! attributes as bit patterns).  Quadratic segments issued by the arc branch are printed as
-//! `aQ@n` (their number is passed to the model as *advice*: lyon_geom's arc conversion is not
-//! part of the parser model).
+//! attributes as bit patterns) — including the quadratic segments the arc branch issues (the model
+//! predicts them with the arc model of C13).
 //!
 //! ORCL (on the implementation alone): no panic; calls well nested; path data not starting with a
 //! move-to rejected; error line/column equal an independent recomputation from the input; the
@@ -227,21 +226,12 @@ fn tokens(run: &Run) -> Vec<String> {
         let name = match c.kind {
             Kind::B => "B",
             Kind::L => "L",
-            Kind::Q => {
-                if c.arc {
-                    "aQ"
-                } else {
-                    "Q"
-                }
-            }
+            Kind::Q => "Q",
             Kind::C => "C",
             Kind::E0 => "E0",
             Kind::E1 => "E1",
         };
         t.push(format!("{}@{}", name, c.pulled));
-        if c.kind == Kind::Q && c.arc {
-            continue;
-        }
         for v in &c.pts {
             t.push(hexf(*v));
         }
@@ -250,24 +240,6 @@ fn tokens(run: &Run) -> Vec<String> {
         }
     }
     t
-}
-
-/// arc advice from a run: `<pulled>:<k>` per group of arc quadratics, `<pulled>:p` for a panic
-fn advice(run: &Run) -> Vec<String> {
-    let mut out: Vec<(usize, usize)> = Vec::new();
-    for c in &run.calls {
-        if c.kind == Kind::Q && c.arc {
-            match out.last_mut() {
-                Some((p, k)) if *p == c.pulled => *k += 1,
-                _ => out.push((c.pulled, 1)),
-            }
-        }
-    }
-    let mut v: Vec<String> = out.iter().map(|(p, k)| format!("{}:{}", p, k)).collect();
-    if run.res.is_none() {
-        v.push(format!("{}:p", run.pulled));
-    }
-    v
 }
 
 // ---------------------------------------------------------------------------------------------
@@ -621,6 +593,224 @@ fn gen_path_string(rng: &mut Rng, na: usize, start_with_move: bool) -> String {
     s
 }
 
+
+/// a number that is exact in f32 and stays exact under the few additions the parser makes
+fn lattice_num(rng: &mut Rng) -> f32 {
+    if rng.chance(1, 2) {
+        rng.range(-20, 20) as f32
+    } else {
+        rng.range(-80, 80) as f32 / 4.0
+    }
+}
+
+fn fmt_num(rng: &mut Rng, v: f32) -> String {
+    if v == v.trunc() && rng.chance(1, 2) {
+        format!("{}", v as i32)
+    } else if rng.chance(1, 6) && v != 0.0 {
+        format!("{}e-2", v * 100.0)
+    } else {
+        format!("{:?}", v)
+    }
+}
+
+/// Path data built from a command list, together with the calls the SVG path rules assign to it
+/// (relative coordinates, implicit repetition, H/V, smooth reflection, close returning to the
+/// sub-path start) — computed from the command list, never from the text.
+fn gen_svg_semantics(rng: &mut Rng, na: usize) -> (String, Vec<(Kind, Vec<f32>, Vec<f32>)>) {
+    let mut text = String::new();
+    let mut exp: Vec<(Kind, Vec<f32>, Vec<f32>)> = Vec::new();
+    let (mut cx, mut cy, mut sx, mut sy) = (0f32, 0f32, 0f32, 0f32);
+    let mut last_c: Option<(f32, f32)> = None;
+    let mut last_q: Option<(f32, f32)> = None;
+    let mut open = false;
+    let mut prev: Option<char> = None;
+    let n = rng.range(1, 12);
+    for i in 0..n {
+        let cmd = if i == 0 || matches!(prev, Some('Z') | Some('z')) {
+            *rng.pick(&['M', 'm'])
+        } else {
+            *rng.pick(&['M', 'm', 'L', 'l', 'l', 'H', 'h', 'V', 'v', 'Q', 'q', 'T', 't', 'T', 'C', 'c', 'S', 's', 'S', 'Z', 'z'])
+        };
+        let rel = cmd.is_ascii_lowercase();
+        let lc = cmd.to_ascii_lowercase();
+        // letter, or implicit repetition where the syntax allows it
+        let implicit_ok = match prev {
+            Some(p) => (p == cmd && lc != 'z' && lc != 'm') || (p == 'M' && cmd == 'L') || (p == 'm' && cmd == 'l'),
+            None => false,
+        };
+        if !(implicit_ok && rng.chance(1, 2)) {
+            if !text.is_empty() && rng.chance(2, 3) {
+                text.push(' ');
+            }
+            text.push(cmd);
+        } else {
+            text.push(' ');
+        }
+        let mut nums: Vec<f32> = Vec::new();
+        let mut num = |rng: &mut Rng, text: &mut String| -> f32 {
+            let v = lattice_num(rng);
+            let t = fmt_num(rng, v);
+            match rng.below(4) {
+                0 => text.push(','),
+                1 if t.starts_with('-') => {}
+                _ => text.push(' '),
+            }
+            text.push_str(&t);
+            v
+        };
+        let pt = |rng: &mut Rng, text: &mut String, num: &mut dyn FnMut(&mut Rng, &mut String) -> f32| -> (f32, f32) {
+            let x = num(rng, text);
+            let y = num(rng, text);
+            if rel {
+                (x + cx, y + cy)
+            } else {
+                (x, y)
+            }
+        };
+        let _ = &mut nums;
+        match lc {
+            'm' => {
+                if open {
+                    exp.push((Kind::E0, vec![], vec![]));
+                }
+                let p = pt(rng, &mut text, &mut num);
+                let at: Vec<f32> = (0..na).map(|_| num(rng, &mut text)).collect();
+                exp.push((Kind::B, vec![p.0, p.1], at));
+                cx = p.0;
+                cy = p.1;
+                sx = p.0;
+                sy = p.1;
+                open = true;
+            }
+            'l' => {
+                let p = pt(rng, &mut text, &mut num);
+                let at: Vec<f32> = (0..na).map(|_| num(rng, &mut text)).collect();
+                exp.push((Kind::L, vec![p.0, p.1], at));
+                cx = p.0;
+                cy = p.1;
+            }
+            'h' => {
+                let x = num(rng, &mut text);
+                let x = if rel { x + cx } else { x };
+                let at: Vec<f32> = (0..na).map(|_| num(rng, &mut text)).collect();
+                exp.push((Kind::L, vec![x, cy], at));
+                cx = x;
+            }
+            'v' => {
+                let y = num(rng, &mut text);
+                let y = if rel { y + cy } else { y };
+                let at: Vec<f32> = (0..na).map(|_| num(rng, &mut text)).collect();
+                exp.push((Kind::L, vec![cx, y], at));
+                cy = y;
+            }
+            'q' | 't' => {
+                let c = if lc == 'q' {
+                    pt(rng, &mut text, &mut num)
+                } else {
+                    match last_q {
+                        Some(k) => (cx + (cx - k.0), cy + (cy - k.1)),
+                        None => (cx, cy),
+                    }
+                };
+                let p = pt(rng, &mut text, &mut num);
+                let at: Vec<f32> = (0..na).map(|_| num(rng, &mut text)).collect();
+                exp.push((Kind::Q, vec![c.0, c.1, p.0, p.1], at));
+                last_q = Some(c);
+                cx = p.0;
+                cy = p.1;
+            }
+            'c' | 's' => {
+                let c1 = if lc == 'c' {
+                    pt(rng, &mut text, &mut num)
+                } else {
+                    match last_c {
+                        Some(k) => (cx + (cx - k.0), cy + (cy - k.1)),
+                        None => (cx, cy),
+                    }
+                };
+                let c2 = pt(rng, &mut text, &mut num);
+                let p = pt(rng, &mut text, &mut num);
+                let at: Vec<f32> = (0..na).map(|_| num(rng, &mut text)).collect();
+                exp.push((Kind::C, vec![c1.0, c1.1, c2.0, c2.1, p.0, p.1], at));
+                last_c = Some(c2);
+                cx = p.0;
+                cy = p.1;
+            }
+            _ => {
+                exp.push((Kind::E1, vec![], vec![]));
+                cx = sx;
+                cy = sy;
+                open = false;
+            }
+        }
+        if !matches!(lc, 'c' | 's') {
+            last_c = None;
+        }
+        if !matches!(lc, 'q' | 't') {
+            last_q = None;
+        }
+        prev = Some(cmd);
+    }
+    if open {
+        exp.push((Kind::E0, vec![], vec![]));
+    }
+    (text, exp)
+}
+
+/// well-conditioned arcs (finite, radii 1..60, any rotation and flags), mixed with other edges
+fn gen_arc_string(rng: &mut Rng, na: usize) -> String {
+    let mut s = String::new();
+    let attrs = |rng: &mut Rng, s: &mut String| {
+        for _ in 0..na {
+            s.push_str(&format!(" {}", rng.range(-9, 9)));
+        }
+    };
+    s.push_str(&format!("M {} {}", rng.range(-50, 50), rng.range(-50, 50)));
+    attrs(rng, &mut s);
+    for _ in 0..rng.range(1, 5) {
+        match rng.below(6) {
+            0 => {
+                s.push_str(&format!(" L {} {}", rng.range(-50, 50), rng.range(-50, 50)));
+                attrs(rng, &mut s);
+            }
+            1 => {
+                s.push_str(&format!(" t {} {}", rng.range(-9, 9), rng.range(-9, 9)));
+                attrs(rng, &mut s);
+            }
+            _ => {
+                let cmd = if rng.chance(1, 2) { 'A' } else { 'a' };
+                let r = |rng: &mut Rng| -> String {
+                    match rng.below(8) {
+                        0 => format!("{:?}", rng.uniform(0.5, 60.0) as f32),
+                        1 => "1e-4".to_string(),
+                        2 => "0.00011".to_string(),
+                        3 => format!("-{}", rng.range(1, 30)),
+                        _ => format!("{}", rng.range(1, 60)),
+                    }
+                };
+                let rot = match rng.below(4) {
+                    0 => "0".to_string(),
+                    1 => format!("{}", rng.range(-720, 720)),
+                    _ => format!("{:?}", rng.uniform(-360.0, 360.0) as f32),
+                };
+                let to = |rng: &mut Rng| -> String {
+                    if rng.chance(1, 2) {
+                        format!("{}", rng.range(-60, 60))
+                    } else {
+                        format!("{:?}", rng.uniform(-60.0, 60.0) as f32)
+                    }
+                };
+                s.push_str(&format!(" {} {} {} {} {} {} {} {}", cmd, r(rng), r(rng), rot, rng.below(2), rng.below(2), to(rng), to(rng)));
+                attrs(rng, &mut s);
+            }
+        }
+    }
+    if rng.chance(1, 3) {
+        s.push_str(" Z");
+    }
+    s
+}
+
 fn mutate(rng: &mut Rng, s: &str) -> String {
     let mut v: Vec<char> = s.chars().collect();
     let n = rng.range(1, 4);
@@ -673,17 +863,17 @@ fn stop_tok(stop: Option<char>) -> String {
 
 /// one `str` case on a fixed string
 fn str_case(ctx: &mut Ctx, text: String, na: usize, stop: Option<char>, tag: String, original: Option<Path>) {
+    str_case_x(ctx, text, na, stop, tag, original, None)
+}
+
+/// `expected`: the calls an independent evaluation of the SVG rules predicts (svg-semantics stream)
+fn str_case_x(ctx: &mut Ctx, text: String, na: usize, stop: Option<char>, tag: String, original: Option<Path>, expected: Option<Vec<(Kind, Vec<f32>, Vec<f32>)>>) {
     ctx.case("str", move |_rng| {
         let chars: Rc<Vec<char>> = Rc::new(text.chars().collect());
-        // first run: what the arc conversion did (advice for the model)
+        // first run: result kind for the tag
         let pre = run_parse(&chars, na, stop);
-        let adv = advice(&pre);
         let mut args = Out::new();
-        args.u(na as u64).t(&stop_tok(stop)).t("A");
-        for a in &adv {
-            args.t(a);
-        }
-        args.t("S");
+        args.u(na as u64).t(&stop_tok(stop)).t("S");
         for c in chars.iter() {
             args.u(*c as u64);
         }
@@ -706,6 +896,14 @@ fn str_case(ctx: &mut Ctx, text: String, na: usize, stop: Option<char>, tag: Str
             }
             let mut orc = Oracle::new();
             oracle(&chars, stop, &run, &mut orc);
+            if let Some(exp) = &expected {
+                let got: Vec<(Kind, Vec<f32>, Vec<f32>)> = run.calls.iter().map(|c| (c.kind, c.pts.clone(), c.attrs.clone())).collect();
+                orc.check(matches!(run.res, Some(Ok(()))), "parse/svg-semantics", "generic", || format!("well-formed path data rejected: {:?}", run.res));
+                orc.check(&got == exp, "parse/svg-semantics", "generic", || {
+                    let k = got.iter().zip(exp.iter()).position(|(a, b)| a != b).unwrap_or(got.len().min(exp.len()));
+                    format!("call {} differs from the SVG rules ({} vs {} calls): got {:?} expected {:?}", k, got.len(), exp.len(), got.get(k), exp.get(k))
+                });
+            }
             if let Some(orig) = original {
                 // round trip into a real path builder
                 let floats = path_floats(&orig);
@@ -838,6 +1036,16 @@ fn main() {
         }
     }
 
+    // --- exhaustive over ParserOptions: 2-3 attributes, stop character set, length <= 4 (blocks)
+    let opt_variants: &[(usize, Option<char>)] = &[(2, None), (3, None), (1, Some('Z')), (2, Some('1')), (3, Some(' ')), (0, Some('M')), (1, Some('e'))];
+    for (na, stop) in opt_variants {
+        for len in 1..=4usize {
+            for p in 0..16usize {
+                blk_case(&mut ctx, *na, *stop, len, vec![p]);
+            }
+        }
+    }
+
     // --- exhaustive, in blocks: length 5 (quick), 5 and 6 (thorough)
     for p in 0..16usize {
         blk_case(&mut ctx, 0, None, 5, vec![p]);
@@ -856,14 +1064,25 @@ fn main() {
     }
 
     // --- generated streams
-    let n = ctx.n(4000, 150000);
+    let n = ctx.n(7000, 210000);
     for i in 0..n {
         // parameters are drawn from a generator-local RNG so that the string is known before
         // `ctx.case` (the case id still determines it: seed ^ i)
         let mut rng = Rng::new(ctx.seed ^ 0xC17, i);
         let na = if rng.chance(1, 2) { 0 } else { rng.range(1, 3) as usize };
         let stop = if rng.chance(1, 4) { Some(*rng.pick(&['|', ';', 'Z', '1', 'x', ' ', '"', 'L', 'A'])) } else { None };
-        match i % 5 {
+        match i % 7 {
+            5 => {
+                // SVG semantics: relative commands, implicit repetition, smooth reflection
+                let na = rng.range(0, 2) as usize;
+                let (text, exp) = gen_svg_semantics(&mut rng, na);
+                str_case_x(&mut ctx, text, na, None, "svg-semantics".to_string(), None, Some(exp));
+            }
+            6 => {
+                let na = rng.range(0, 2) as usize;
+                let text = gen_arc_string(&mut rng, na);
+                str_case(&mut ctx, text, na, None, "arcs".to_string(), None);
+            }
             0 => {
                 let mut s = gen_path_string(&mut rng, na, true);
                 if stop.is_some() && rng.chance(1, 2) {
